@@ -1,20 +1,44 @@
 (* C01 — every machine instruction has exactly its architected effect.
-   Property theorems only: each is closed by a lemma proved in Proofs/, followed by
-   Print Assumptions. *)
+
+   Property theorems only: each is closed by a lemma proved under Proofs/, followed by
+   Print Assumptions.  [exec] is Gen/Ops.v, regenerated from hera/op.py on every run;
+   [step_with] is the hand-written HERA 2.4 specification Spec/ISA.v. *)
 From Coq Require Import ZArith List.
-From Hera.Lib Require Import Py Machine.
+From Hera.Lib Require Import Py Machine Word16.
 From Hera.Gen Require Import Ops.
 From Hera.Spec Require Import ISA Wf.
-From Hera.Proofs Require Import C01_ALU.
+From Hera.Model Require Import InstrOf.
+From Hera.Proofs Require Import C01_All.
 Import ListNotations.
 Open Scope Z_scope.
 
-Theorem C01_AND : forall s d a b, wf_vm s -> reg_ix d -> reg_ix a -> reg_ix b ->
-  exec_AND [PI d; PI a; PI b] s = Ok (tt, step_AND d a b s).
-Proof. exact exec_AND_ok. Qed.
-Print Assumptions C01_AND.
+(* Every real instruction (all 57 classes with an encoding except SWI/RTI), every well-formed
+   state, every valid operand tuple (registers quantified, so R0 and every aliasing pattern
+   are included), wherever the definition constrains the outcome: the code computes exactly
+   the specified successor state.  Equality is on the whole state record: registers, five
+   flags, memory, pc, halt latch, call stack, warning counters and output. *)
+Theorem C01_exec_exact : forall o args i s,
+  wf_vm s -> instr_of o args = Some i -> valid_instr i = true -> constrained i s = true ->
+  exists mc mv, is_bool mc /\ is_bool mv /\
+    exec o (map PI args) s = Ok (tt, step_with mc mv i s).
+Proof. exact exec_exact. Qed.
+Print Assumptions C01_exec_exact.
 
-Theorem C01_ADD : forall s d a b, wf_vm s -> reg_ix d -> reg_ix a -> reg_ix b ->
-  exec_ADD [PI d; PI a; PI b] s = Ok (tt, step_ADD d a b s).
-Proof. exact exec_ADD_ok. Qed.
-Print Assumptions C01_ADD.
+(* grounding of the specification's memory and register helpers *)
+Theorem C01_mem_write_same : forall m a v, 0 <= a -> mem_read (mem_write m a v) a = v.
+Proof. exact mem_read_write_same. Qed.
+Print Assumptions C01_mem_write_same.
+
+Theorem C01_mem_write_other : forall m a b v,
+  0 <= a -> 0 <= b -> a <> b -> wf_mem m -> mem_read (mem_write m a v) b = mem_read m b.
+Proof. exact mem_read_write_other. Qed.
+Print Assumptions C01_mem_write_other.
+
+Theorem C01_R0_is_zero : forall v s, setreg 0 v s = s.
+Proof. exact setreg_R0. Qed.
+Print Assumptions C01_R0_is_zero.
+
+(* the hypotheses are satisfiable, and the specification computes what one expects *)
+Theorem C01_nonvacuous : wf_vm demo_state.
+Proof. exact demo_state_wf. Qed.
+Print Assumptions C01_nonvacuous.
